@@ -369,14 +369,19 @@ func (t *SpecTracer) afterOp(n *Node, op string, msg *pb.Message) {
 	t.ghost[id] = newGhost
 
 	// --- commit (leaders; followers' commit moves inside handleApp/handleHb/handleSnap)
-	if post.role == "L" && post.commit > pre.commit {
+	emitCommit := func(c uint64) {
 		q := map[uint64]bool{}
 		for pid, pr := range n.RN.Status().Progress {
-			if pr.Match >= post.commit {
+			if pr.Match >= c {
 				q[pid] = true
 			}
 		}
-		t.emit("leaderCommit %d %d %s", id, post.commit, ids(q))
+		t.emit("leaderCommit %d %d %s", id, c, ids(q))
+	}
+	curCommit := pre.commit
+	if post.role == "L" && post.commit > pre.commit && !t.R {
+		emitCommit(post.commit)
+		curCommit = post.commit
 	}
 
 	// --- messages created by this operation (creation time = send time in the abstract protocol)
@@ -391,8 +396,18 @@ func (t *SpecTracer) afterOp(n *Node, op string, msg *pb.Message) {
 	for _, m := range vi.PendingMsgs[start:] {
 		switch m.GetType() {
 		case pb.MsgApp:
+			if t.R && post.role == "L" && m.GetCommit() > curCommit && m.GetCommit() <= post.commit {
+				// SpecR's sendApp carries exactly the leader's commit index: one call may advance the commit index in
+				// several steps (one self-acknowledgement per entry) and send an append after each
+				emitCommit(m.GetCommit())
+				curCommit = m.GetCommit()
+			}
 			t.emit("sendApp %d %d %d %d", id, m.GetIndex(), len(m.GetEntries()), m.GetCommit())
 		case pb.MsgHeartbeat:
+			if t.R && post.role == "L" && m.GetCommit() > curCommit && post.commit > curCommit {
+				emitCommit(post.commit) // (R mode defers leaderCommit to the appends; a heartbeat needs it now)
+				curCommit = post.commit
+			}
 			t.emit("sendHb %d %d %d", id, m.GetTo(), m.GetCommit())
 		case pb.MsgSnap:
 			s := m.GetSnapshot().GetMetadata()
@@ -404,6 +419,9 @@ func (t *SpecTracer) afterOp(n *Node, op string, msg *pb.Message) {
 		}
 	}
 	t.nmsgs[id] = len(vi.PendingMsgs)
+	if t.R && post.role == "L" && post.commit > curCommit {
+		emitCommit(post.commit)
+	}
 
 	// --- stepping down within a term
 	if (pre.role == "L" || pre.role == "C") && post.role == "F" && !handled {
